@@ -1,3 +1,4 @@
 import HapModel.Real.Std
 import HapModel.Real.R2Bound
 import HapModel.Real.Cubic
+import HapModel.Real.PropsReal
